@@ -39,9 +39,11 @@ pub fn eco_state() -> impl Strategy<Value = EcoState> {
         any::<[bool; 8]>(),
         any::<[u32; 11]>(),
         [finite_f64(), finite_f64(), finite_f64(), finite_f64()],
-        prop::collection::vec(text(ANY, 30), 15),
-        prop::collection::vec(text(ANY, 16), 0..12),
-        prop::collection::vec((text(ANY, 12), text(ANY, 20)), 0..6),
+        // mostly short strings; sometimes long ones (descriptions run to kilobytes)
+        prop_oneof![5 => prop::collection::vec(text(ANY, 30), 15), 1 => prop::collection::vec(prop_oneof![3 => text(ANY, 30).boxed(), 1 => "\\PC{800,3000}".boxed()], 15)],
+        // 0-100 online players, names up to 64 characters
+        prop_oneof![6 => prop::collection::vec(text(ANY, 16), 0..12), 1 => prop::collection::vec(prop_oneof![text(ANY, 64).boxed(), "\\PC{30,64}".boxed()], 40..101)],
+        prop_oneof![6 => prop::collection::vec((text(ANY, 12), text(ANY, 20)), 0..6), 1 => prop::collection::vec((text(ANY, 24), text(ANY, 200)), 6..40)],
         any::<u64>(),
         any::<bool>(),
     )
@@ -257,6 +259,32 @@ impl HttpServer {
             body
         )
         .into_bytes();
+    }
+
+    /// As `set_json`, with the body framed in one of the three ways HTTP/1.1 allows: 0 = Content-Length, 1 = chunked transfer
+    /// coding (chunk sizes derived from `salt`), 2 = neither (the body ends when the server closes the connection).
+    pub fn set_json_framed(&self, body: &str, framing: u8, salt: u64) {
+        let head = "HTTP/1.1 200 OK\r\nContent-Type: application/json; charset=utf-8\r\nConnection: close\r\n";
+        let raw = match framing % 3 {
+            0 => format!("{head}Content-Length: {}\r\n\r\n{}", body.len(), body).into_bytes(),
+            1 => {
+                let mut out = format!("{head}Transfer-Encoding: chunked\r\n\r\n").into_bytes();
+                let bytes = body.as_bytes();
+                let (mut i, mut s) = (0usize, salt | 1);
+                while i < bytes.len() {
+                    s = s.wrapping_mul(6364136223846793005).wrapping_add(1442695040888963407);
+                    let n = match (s >> 60) % 4 { 0 => 1, 1 => 17, 2 => 1024, _ => 4096 }.min(bytes.len() - i);
+                    out.extend_from_slice(format!("{n:x}\r\n").as_bytes());
+                    out.extend_from_slice(&bytes[i .. i + n]);
+                    out.extend_from_slice(b"\r\n");
+                    i += n;
+                }
+                out.extend_from_slice(b"0\r\n\r\n");
+                out
+            }
+            _ => format!("{head}\r\n{body}").into_bytes(),
+        };
+        self.set_raw(raw, false);
     }
 
     pub fn set_raw(&self, raw: Vec<u8>, drop_connection: bool) {
